@@ -274,3 +274,71 @@ impl Engine for CorruptEngine {
     vec!["fault.bit_flip", "fault.truncate", "probe.corruption_detected", "probe.corruption_harmless", "probe.log_prefix_recovered"]
   }
 }
+
+pub struct SchedEngine {
+  pub reader_heavy: bool,
+}
+
+impl Engine for SchedEngine {
+  type Case = crate::e2::SchedCase;
+  fn name(&self) -> &'static str {
+    "e2.sched"
+  }
+  fn level(&self) -> &'static str {
+    "exploration"
+  }
+  fn generate(&self, rng: &mut Rng, thorough: bool) -> Self::Case {
+    crate::e2::gen_case(rng, self.reader_heavy, thorough)
+  }
+  fn execute(&self, case: &Self::Case, wroot: &Path, stats: &mut Stats) -> (Vec<Violation>, Vec<String>) {
+    let r = crate::e2::run_case(case, wroot, stats);
+    (r.violations, r.trace)
+  }
+  fn shrink(&self, case: &Self::Case) -> Vec<Self::Case> {
+    crate::e2::shrink_candidates(case)
+  }
+  fn pin(&self, case: &Self::Case, _target: &Violation, wroot: &Path) -> Self::Case {
+    // make the schedule explicit: the PRNG is not consulted on replay
+    let mut st = Stats::default();
+    let r = crate::e2::run_case(case, wroot, &mut st);
+    let mut c = case.clone();
+    c.schedule = Some(r.schedule);
+    c
+  }
+  fn sample(&self, case: &Self::Case) -> Value {
+    crate::e2::sample_json(case)
+  }
+  fn shrink_match(&self, a: &Violation, b: &Violation) -> bool {
+    a.class == b.class
+  }
+  fn rule(&self) -> String {
+    "seeded programs of 2-4 writer threads (own handles), optional compactor and reader threads over <=3 ids on FsStorage+SimFs; real OS threads under a baton scheduler with yield points at every lock acquire/release (verif::sync hooks), every FS primitive and every call boundary; policies: uniform random, sticky (7/8 keep running), PCT-style priorities; the recorded invoke/return history is checked for linearizability against the reference model (Wing-Gong search); distinct = distinct executed schedules (hash of the thread-id sequence)".into()
+  }
+  fn assumptions(&self) -> Vec<String> {
+    vec![
+      "threads only interact through the two index locks and the file system (both are yield points); code between yield points runs atomically".into(),
+      "the reference model (shared append log, per-handle queues) defines the legal serial behaviours".into(),
+      "unlinked files stay readable through open handles (POSIX)".into(),
+    ]
+  }
+  fn real_vs_stub(&self) -> Value {
+    json!({
+      "real": "all of searchlite-core incl. FsStorage, real OS threads, the real parking_lot locks (taken only when the scheduler's lock table says they are free)",
+      "simulated": "thread scheduling (baton scheduler), the OS file system (SimFs), segment ids / uuid / clock",
+    })
+  }
+  fn budget(&self, thorough: bool) -> (u64, f64) {
+    if thorough {
+      (5_000_000, 900.0)
+    } else {
+      (200_000, 40.0)
+    }
+  }
+  fn probes(&self) -> Vec<&'static str> {
+    if self.reader_heavy {
+      vec!["probe.context_switches", "probe.lock_waits", "probe.reader_histories_checked", "probe.reader_with_concurrent_compaction"]
+    } else {
+      vec!["probe.context_switches", "probe.lock_waits", "probe.linearization_states"]
+    }
+  }
+}
